@@ -268,38 +268,33 @@ bool splinetable<Alloc>::read_fits_core_impl(fitsfile* fits, const std::string& 
 					continue;
 				
 				keylen = strlen(key) + 1;
+				//remove stupid quotes mandated by FITS, but not removed by cfitsio on reading
+				//Note that we do not attempt to remove whitespace, because we cannot 
+				//distinguish whitespace included by the user and whitespace pointlessly
+				//added by FITS.
+				//This is done in place before storage is obtained, so that the block
+				//allocated for the value has the size with which it will be released.
 				valuelen = strlen(value) + 1;
+				if(valuelen>1 && value[0]=='\''){
+					char* end=value+valuelen-1; //the terminator
+					if(valuelen>2 && value[valuelen-2]=='\'') //remove a trailing quote also
+						end--;
+					//a quote inside the string is stored as two quotes
+					char* out=value;
+					for(const char* in=value+1; in<end; in++){
+						*out++=*in;
+						if(in[0]=='\'' && in+1<end && in[1]=='\'')
+							in++;
+					}
+					*out='\0';
+					valuelen = strlen(value) + 1;
+				}
 				aux[i] = allocate<char_ptr>(2);
 				aux[i][0] = aux[i][1] = NULL;
 				aux[i][0] = allocate<char>(keylen);
 				std::copy(key,key+keylen,aux[i][0]);
 				aux[i][1] = allocate<char>(valuelen);
-				//remove stupid quotes mandated by FITS, but not removed by cfitsio on reading
-				//Note that we do not attempt to remove whitespace, because we cannot 
-				//distinguish whitespace included by the user and whitespace pointlessly
-				//added by FITS.
-				if(valuelen>1 && value[0]=='\''){
-					if(valuelen>2 && value[valuelen-2]=='\''){ //remove a trailing quote also
-						std::copy(value+1,value+valuelen-2,aux[i][1]);
-						aux[i][1][valuelen-3]='\0';
-					}
-					else{ //just remove an opening quote
-						std::copy(value+1,value+valuelen-1,aux[i][1]);
-						aux[i][1][valuelen-2]='\0';
-					}
-					//a quote inside the string is stored as two quotes
-					char* out=&aux[i][1][0];
-					for(const char* in=out; *in; in++){
-						*out++=*in;
-						if(in[0]=='\'' && in[1]=='\'')
-							in++;
-					}
-					*out='\0';
-				}
-				else{
-					std::copy(value,value+valuelen,aux[i][1]);
-					aux[i][1][valuelen-1]='\0';
-				}
+				std::copy(value,value+valuelen,aux[i][1]);
 				i++;
 			}
 		} else {
